@@ -11,7 +11,7 @@ use crate::gen::{size_line, ChunkStyle};
 use crate::transport::{serve_scripts, Ev, Seg};
 
 pub const METHODS: &[&str] = &["GET", "POST", "PUT", "DELETE", "OPTIONS", "PATCH", "HEAD", "PURGE"];
-pub const STATUSES: &[u16] = &[100, 101, 102, 199, 200, 201, 204, 206, 304, 301, 404, 500, 999, 300, 305, 399];
+pub const STATUSES: &[u16] = &[100, 101, 102, 199, 200, 201, 204, 206, 304, 301, 404, 500, 999, 300, 305, 399, 205, 203];
 /// Content-Length configurations: tokens N = payload length, M = N+3
 pub const CL_CONFIGS: &[&[&str]] = &[
     &[],
@@ -196,7 +196,7 @@ fn gzip(data: &[u8]) -> Vec<u8> {
 impl Property for C03 {
     type Case = Case;
     const ID: &'static str = "C03";
-    const RULE: &'static str = "cases drawn from (thorough: all of) the product method{8} x status{16} x Content-Length configuration{38} x Transfer-Encoding{19} x \
+    const RULE: &'static str = "cases drawn from (thorough: all of) the product method{8} x status{18} x Content-Length configuration{38} x Transfer-Encoding{19} x \
 Content-Encoding{2} x bytes after the frame{3} x segmentation{3} x payload length{2}; the reference model (RFC 9112 6.3) decides the governing framing and the builder lays the body \
 out for it; outcome (Ok/Err and bytes) compared exactly. non-trivial = two framing signals in conflict, or a bodiless method/status carrying framing or coding headers, or an invalid/disagreeing \
 Content-Length; distinct by case index";
